@@ -251,6 +251,10 @@ def run(chk):
 
     from lib import flattenrule
     flattenrule.run(chk)
+    flattenrule.run_every_offset(chk)
+    from lib import failpure
+    failpure.run_wrapping_bounds(chk, [("asmjit/core/codeholder.cpp", r"asmjit::CodeHolder::(copy_section_data|copy_flattened_data|flatten|code_size|reserve_buffer|grow_buffer)$")],
+                                 fixture="/verif/fixtures/asmjit/wrapping_bound.cpp", floor=2)
     return chk.finish(
         level="other",
         explanation=("Structural clauses over CodeHolder's layout/copy functions: every write into the caller's buffer is proved to stay in "
